@@ -26,6 +26,7 @@ EXPLANATION = (
     "container hands keys back and reports no cursor instead of raising; (8) the dict-like Frame.contents does not define __len__/__iter__ through the Mapping mixin methods that are themselves derived from them."
     " Added after seed round 3: (11) EXHAUST - an if/else on the key's command whose else-arm stands for the other command is reached only after the key was restricted to those two commands (only a `self.selectable()` test may bypass the restriction: the calling convention); (12) CommandMap.copy() gives the copy its own dict."
     " Round 4: (13) OPTCALL - get_cursor_coords / get_pref_col / move_cursor_to_coords / mouse_event are called on a child only under hasattr(child, method); (14) GridFlow: every store of a row's focus_position sets the latch the default-focus test reads; (15) an index is clamped to len-1 under `index >= len`."
+    " Round-4 triage: (16) NONE-SENTINEL - optional parts are tested with `is (not) None`, never by truthiness; (3, extended) every writer of Frame.focus_part that can store 'header' / 'footer' tests that the part exists; (17) the position ListBox.set_focus() parks in set_focus_pending is handed back to the walker only under an IndexError/KeyError handler."
 )
 NOT_DECIDED = "Validity of the index after arbitrary edit histories (C16's arithmetic), the choice of the arrow-key target, which widgets are rendered with focus=True, ListBox focus bookkeeping."
 ASSUMPTIONS = []
@@ -561,6 +562,43 @@ def rule_index_clamp(ctx: Ctx) -> RuleResult:
     return rr
 
 
+def rule_stale_position(ctx: Ctx) -> RuleResult:
+    """ListBox.set_focus() parks (coming_from, old widget, old position) in `set_focus_pending` until the next call
+    that knows the size.  Between the two calls the walker's contents can change, so the parked position is a
+    *stale* position: handing it to the walker's set_focus() is only allowed where the walker's IndexError /
+    KeyError is handled (exception edge to a handler in the same function)."""
+    p = ctx.p
+    rr = RuleResult("EXC", "C08.17", "a focus position parked in ListBox.set_focus_pending is handed back to the walker only under an IndexError/KeyError handler", floor=1)
+    lb = p.cls("urwid.widget.listbox.ListBox")
+    for fi in p.all_class_functions(lb):
+        if fi.cls is not lb:
+            continue
+        du = None
+        for c in fi.own_nodes():
+            if not (isinstance(c, ast.Call) and isinstance(c.func, ast.Attribute) and c.func.attr == "set_focus" and c.args and isinstance(c.args[0], ast.Name)):
+                continue
+            du = du or DefUse(fi)
+            at = du.node_of(c)
+            if at is None:
+                continue
+            stale = False
+            for v, how, dn in du.reaching(c.args[0].id, at):
+                src = ast.unparse(dn.ast.value) if dn is not None and isinstance(dn.ast, ast.Assign) else ""
+                if src.endswith(".set_focus_pending"):
+                    stale = True
+            if not stale:
+                continue
+            handled = set()
+            for t, lab in at.succ:
+                if lab == "e" and t.kind == "handler" and t.ast.type is not None:
+                    handled |= {x.id for x in ast.walk(t.ast.type) if isinstance(x, ast.Name)}
+            ok = "IndexError" in handled or "LookupError" in handled or "Exception" in handled
+            rr.inst(f"{short(fi)}:{norm(c, 40)}", True, {"function": short(fi), "call": norm(c, 50), "handled": sorted(handled)})
+            if not ok:
+                rr.add(finding("EXC", fi, c, f"`{norm(c, 50)}` restores the position that set_focus() parked in set_focus_pending during an earlier call without handling the walker's IndexError: when the list shrank in between (focus moved, then items deleted, then render) the error escapes render()/keypress()", construct=f"stale position restored unguarded: {norm(c, 50)}"))
+    return rr
+
+
 def run(ctx: Ctx):
     p = ctx.p
     from ..rules import optcall, sentinel
@@ -587,6 +625,7 @@ def run(ctx: Ctx):
         rule_gridflow_latch(ctx),
         rule_index_clamp(ctx),
         sentinel.run_sentinel(p, "C08.16", ("urwid.widget",), floor=10),
+        rule_stale_position(ctx),
         optcall.run_optcall(p, "C08.13", ("urwid.widget",), floor=35),
     ]
 
@@ -596,6 +635,7 @@ _C = "urwid/widget/columns.py"
 _G = "urwid/widget/grid_flow.py"
 _F = "urwid/widget/frame.py"
 MUTANTS = [
+    Mut("listbox-restores-stale-position-unguarded", "urwid/widget/listbox.py", "ListBox._set_focus_complete", "        try:\n            self._body.set_focus(focus_pos)\n        except (IndexError, KeyError):\n            # the old focus position no longer exists: there is nothing to place the new focus relative to\n            focus_offset = focus_rows = 0\n            fill_above = fill_below = ()\n        else:\n", "        self._body.set_focus(focus_pos)\n        if True:\n", "EXC|widget.listbox.ListBox._set_focus_complete"),
     Mut("frame-ctor-focuses-absent-part", _F, "Frame.__init__", "        if (self.focus_part == \"header\" and header is None) or (self.focus_part == \"footer\" and footer is None):\n            # an absent part cannot have the focus (as when the part is removed later)\n            self.focus_part = \"body\"\n", "", "WRITER|widget.frame.Frame.__init__"),
     Mut("frame-keys-by-truthiness", "urwid/widget/frame.py", "Frame._contents_keys", "        if self._header is not None:\n            keys.append(\"header\")", "        if self._header:\n            keys.append(\"header\")", "SENTINEL|widget.frame.Frame._contents_keys"),
     Mut("walker-focus-clamp-off-by-one", "urwid/widget/listbox.py", "SimpleListWalker._modified", "if self.focus >= len(self):", "if self.focus > len(self):", "BOUND|widget.listbox.SimpleListWalker._modified"),
